@@ -686,6 +686,8 @@ class Conformance:
                 ev2 = run_driver(exe, cp, os.path.join(rd, "trace.ndjson"), timeout=300, args=driver_args)
                 if event_map:
                     ev2 = [event_map(x) for x in ev2]
+                if event_filter:
+                    ev2 = event_filter(ev2)
                 v2 = validate_trace(spec, ev2, os.path.join(rd, "tlc"), shards=1, env=tenv, timeout=600,
                                     cfg=spec_cfg)
                 confirmed = bool(v2.rejected)
@@ -703,6 +705,8 @@ class Conformance:
                         evw = run_driver(exe, cp, os.path.join(rd, "trace.ndjson"), timeout=1200, args=driver_args)
                         if event_map:
                             evw = [event_map(x) for x in evw]
+                        if event_filter:
+                            evw = event_filter(evw)
                         last = [x for x in evw if x.get("i") == len(window) - 1]
                         if last:
                             vw = validate_trace(spec, last, os.path.join(rd, "tlcw"), shards=1, env=tenv,
